@@ -202,8 +202,9 @@ def gen_tcp(ctx):
     def add(name, client, covert, bound=15000):
         cases.append({"name": name, "client": client, "covert": covert, "bound_ms": bound})
     for end in ("closewrite", "close", "rst"):
-        add("client-sends-then-" + end, P(10000, "drain", end), P(0, "drain", "wait"))
-        add("covert-sends-then-" + end, P(0, "drain", "wait"), P(10000, "drain", end))
+        # (the sender's end action waits until the kernel has taken all of its bytes: send_all)
+        add("client-sends-then-" + end, dict(P(10000, "drain", end), send_all=True), P(0, "drain", "wait"))
+        add("covert-sends-then-" + end, P(0, "drain", "wait"), dict(P(10000, "drain", end), send_all=True))
         add("both-send-client-" + end, P(30000, "drain", end, 50), P(20000, "drain", "wait"))
         add("idle-client-" + end, P(0, "drain", end, 100), P(0, "drain", "wait"))
         add("idle-covert-" + end, P(0, "drain", "wait"), P(0, "drain", end, 100))
@@ -214,8 +215,8 @@ def gen_tcp(ctx):
     # both directions blocked in Write, then one peer goes away
     add("both-blocked-client-close", P(big, "none", "close", 300), P(big, "none", "wait"))
     add("both-blocked-covert-rst", P(big, "none", "wait"), P(big, "none", "rst", 300))
-    cases += gen_tcp_slow(ctx) + gen_tcp_probe(ctx)
-    return cases
+    # the slow-but-complete readers come first: they carry the sharpest statement (delivered = counted = sent at the peer)
+    return gen_tcp_slow(ctx) + cases + gen_tcp_probe(ctx)
 
 
 def gen_tcp_slow(ctx):
@@ -253,14 +254,18 @@ def gen_tcp_probe(ctx):
     driver: what the relay's shutdown calls left on the sockets (SO_LINGER on/seconds, half shutdowns, descriptor
     closed) is read back afterwards and compared with the model's shutdown-call log, arguments included"""
     rng = ctx.rng
-    P = lambda send=0, read="drain", end="wait", delay=0: {"send": send, "read": read, "end": end, "delay_ms": delay}
+    P = lambda send=0, read="drain", end="wait", delay=0: {"send": send, "read": read, "end": end, "delay_ms": delay, "send_all": True}
     cases = []
     for end in ("closewrite", "close", "rst"):
         n = rng.choice([0, 1, 1000, 40000])
-        cases.append({"name": "probe-client-" + end, "client": P(n, "drain", end, 30), "covert": P(rng.choice([0, 500]), "drain", "wait"),
+        # (the half-close cases are judged for a clean end of stream at the receiver: nothing travels the other way, so that
+        # the station never closes a socket with unread data in it — Linux answers that with a reset)
+        back = 0 if end == "closewrite" else rng.choice([0, 500])
+        cases.append({"name": "probe-client-" + end, "client": P(n, "drain", end, 30), "covert": P(back, "drain", "wait"),
                       "bound_ms": 15000, "probe": True})
         n = rng.choice([0, 1, 1000, 40000])
-        cases.append({"name": "probe-covert-" + end, "client": P(rng.choice([0, 500]), "drain", "wait"), "covert": P(n, "drain", end, 30),
+        back = 0 if end == "closewrite" else rng.choice([0, 500])
+        cases.append({"name": "probe-covert-" + end, "client": P(back, "drain", "wait"), "covert": P(n, "drain", end, 30),
                       "bound_ms": 15000, "probe": True})
     return cases
 
@@ -330,9 +335,10 @@ def check_tcp(ctx, cases, out):
             how = {"eof": "end of stream", "reset": "ECONNRESET", "": "nothing (no end within the bound)"}.get(ro["sawClose"], ro["sawClose"])
             told = ("the tunnel reports %d bytes %s" % (r[cnt], d)) if r["summary"] else "no tunnel summary was printed"
             if ro["got"] != so["sent"] and not graceful:
-                ctx.fail("lost-data/%s/%s" % (key, d), "the %s peer sent %d bytes and ended its stream cleanly; the %s peer, slower but reading "
+                ctx.fail("lost-data/%s/%s" % (key, d), "the %s peer sent %d bytes and ended its stream cleanly; the %s peer, %sreading "
                          "everything until its stream ended, received %d of them and then %s; %s (bytes the relay accepted and counted "
-                         "were still in the station's send queue at teardown)" % (snd, so["sent"], rcv, ro["got"], how, told), slim)
+                         "were still in the station's send queue at teardown)"
+                         % (snd, so["sent"], rcv, "slower but " if c[rcv]["read"] == "slow" else "", ro["got"], how, told), slim)
             elif ro["got"] == so["sent"] and ro["hash"] != so["sentHash"]:
                 ctx.fail("corrupt/%s/%s" % (key, d), "the %s peer received %d bytes whose SHA-256 differs from that of the %d bytes sent"
                          % (rcv, ro["got"], so["sent"]), slim)
